@@ -579,4 +579,157 @@ Proof.
   lra.
 Qed.
 
+(* ------------------------------------------------------------------ Part 4 *)
+
+Fixpoint total (l : list (Z * Z)) : Z :=
+  match l with
+  | [] => 0%Z
+  | p :: r => (snd p - fst p + total r)%Z
+  end.
+
+Lemma total_app : forall l1 l2, total (l1 ++ l2) = (total l1 + total l2)%Z.
+Proof. induction l1 as [|p l1 IH]; intros l2; cbn [total app]; [lia|rewrite IH; lia]. Qed.
+
+Lemma total_nonneg : forall l, Forall (fun p => (fst p <= snd p)%Z) l -> (0 <= total l)%Z.
+Proof.
+  induction l as [|p l IH]; intros H; cbn [total]; [lia|].
+  inversion H; subst. specialize (IH H3). lia.
+Qed.
+
+(* an integer interval (a, b] covered by blocks (lo, hi] is no longer than their total length *)
+Lemma cover_sum : forall n l a b,
+  length l = n ->
+  Forall (fun p => (fst p <= snd p)%Z) l ->
+  (forall x, (a < x <= b)%Z -> exists p, In p l /\ (fst p < x <= snd p)%Z) ->
+  (b - a <= total l)%Z.
+Proof.
+  induction n as [|n IH]; intros l a b Hlen Hwf Hcov.
+  - destruct l; [|discriminate]. cbn [total].
+    destruct (Z_lt_le_dec a b) as [Hab|Hab]; [|lia].
+    destruct (Hcov b ltac:(lia)) as [p [[] _]].
+  - destruct (Z_lt_le_dec a b) as [Hab|Hab]; [|pose proof (total_nonneg l Hwf); lia].
+    destruct (Hcov b ltac:(lia)) as [p [Hin Hp]].
+    destruct (in_split _ _ Hin) as [l1 [l2 Hl]]. subst l.
+    rewrite total_app. cbn [total].
+    assert (Hwf' : Forall (fun p => (fst p <= snd p)%Z) (l1 ++ l2)).
+    { apply Forall_app in Hwf. destruct Hwf as [W1 W2]. inversion W2; subst.
+      apply Forall_app. split; assumption. }
+    pose proof (total_nonneg _ Hwf') as Hnn. rewrite total_app in Hnn.
+    destruct (Z_lt_le_dec a (fst p)) as [Hlo|Hlo]; [|lia].
+    assert (Hrest : (fst p - a <= total (l1 ++ l2))%Z).
+    { apply (IH (l1 ++ l2) a (fst p)).
+      - rewrite app_length in *. cbn [length] in Hlen. lia.
+      - exact Hwf'.
+      - intros x Hx. destruct (Hcov x ltac:(lia)) as [q [Hq Hqx]].
+        exists q. split; [|exact Hqx].
+        apply in_app_or in Hq. apply in_or_app.
+        destruct Hq as [Hq|[Hq|Hq]]; [left; exact Hq| |right; exact Hq].
+        subst q. lia. }
+    rewrite total_app in Hrest. lia.
+Qed.
+
+Definition is_started (s : status) : bool := match s with Started _ => true | _ => false end.
+
+Lemma not_started_iff : forall s, not_started s <-> is_started s = false.
+Proof.
+  intros s. unfold not_started. destruct s; cbn [is_started]; split; intros H; try reflexivity;
+    try (intros ts; discriminate); try discriminate.
+  exfalso. apply (H ts). reflexivity.
+Qed.
+
+(* the last completed block of every actor below k that has no I/O in flight *)
+Fixpoint sum_last (g : gst) (k : nat) : Z :=
+  match k with
+  | O => 0%Z
+  | S k' => (sum_last g k' + (if is_started (g_stat g k') then 0 else g_last g k'))%Z
+  end.
+
+Definition block_of (g : gst) (a : nat) : Z * Z :=
+  if is_started (g_stat g a) then (0%Z, 0%Z) else ((g_hi g a - g_last g a)%Z, g_hi g a).
+
+Lemma total_blocks : forall g k, total (map (block_of g) (seq 0 k)) = sum_last g k.
+Proof.
+  intros g. induction k as [|k IH]; [reflexivity|].
+  rewrite seq_S, map_app, total_app, IH. cbn [map total plus sum_last].
+  unfold block_of. destruct (is_started (g_stat g k)); cbn [fst snd]; lia.
+Qed.
+
+Lemma above_certified : forall g k, Inv g ->
+  (forall a, (k <= a)%nat -> g_last g a = 0%Z) ->
+  (g_T g - g_G g <= sum_last g k)%Z.
+Proof.
+  intros g k I Hk. rewrite <- total_blocks.
+  apply (cover_sum (length (map (block_of g) (seq 0 k))) _ _ _ eq_refl).
+  - apply Forall_forall. intros p Hp. apply in_map_iff in Hp. destruct Hp as [a [Ha _]].
+    subst p. unfold block_of. destruct (is_started (g_stat g a)); cbn [fst snd]; [lia|].
+    pose proof (i_hi g I a). lia.
+  - intros x Hx. destruct (i_cover g I x Hx) as [a [Hns Hax]].
+    exists (block_of g a). split.
+    + apply in_map. apply in_seq.
+      destruct (le_lt_dec k a) as [Hka|Hka]; [|lia].
+      rewrite (Hk a Hka) in Hax. lia.
+    + unfold block_of. apply not_started_iff in Hns. rewrite Hns. cbn [fst snd]. exact Hax.
+Qed.
+
+Definition actor_of_ev1 (e : ev1) : nat :=
+  match e with E1 a _ _ => a | S1 a _ => a | D1 a _ _ => a end.
+
+Lemma last_untouched : forall tr g g' k,
+  grun g tr = Some g' -> Forall (fun e => (actor_of_ev1 e < k)%nat) tr ->
+  forall a, (k <= a)%nat -> g_last g' a = g_last g a.
+Proof.
+  induction tr as [|e tr IH]; intros g g' k Hr Hall a Ha; cbn [grun] in Hr.
+  - inversion Hr. reflexivity.
+  - destruct (gstep g e) as [g1|] eqn:E; [|discriminate].
+    inversion Hall as [|? ? He Hall']; subst.
+    rewrite (IH g1 g' k Hr Hall' a Ha).
+    destruct e as [b t w|b t|b t n]; cbn [gstep actor_of_ev1] in *;
+      destruct (g_stat g b); try discriminate.
+    + destruct (_ && _); [|discriminate]. inversion E. reflexivity.
+    + destruct (_ && _); [|discriminate]. inversion E. reflexivity.
+    + destruct (_ && _); [|discriminate]. inversion E. cbn [g_last].
+      apply updf_other. lia.
+Qed.
+
+(* shared_bound: k actors share the throttle.  At any time t not before the last event, the bytes
+   completed so far are within L*(t - t0) + r/2 plus ONE block per actor: the last completed
+   block of each actor that has no I/O in flight (an actor with an I/O in flight contributes
+   nothing completed beyond the bound; its in-flight block is not yet counted in g_T). *)
+Theorem shared_bound : forall th c tr g k z t,
+  fresh_ok th -> grun (ginit th c) tr = Some g ->
+  Forall (fun e => (actor_of_ev1 e < k)%nat) tr ->
+  g_t0 g = Some z -> g_clock g <= t ->
+  inject_Z (g_T g) <= L * (t - z) + half (g_r g) + inject_Z (sum_last g k).
+Proof.
+  intros th c tr g k z t Hf Hr Hall Hz Ht.
+  pose proof (Inv_run tr _ _ (Inv_init th c Hf) Hr) as I.
+  assert (Hk : forall a, (k <= a)%nat -> g_last g a = 0%Z).
+  { intros a Ha. rewrite (last_untouched tr _ _ k Hr Hall a Ha). reflexivity. }
+  pose proof (above_certified g k I Hk) as Hab.
+  rewrite Zle_Qle in Hab. unfold Z.sub in Hab. rewrite inject_Z_plus, inject_Z_opp in Hab.
+  assert (Hmono : L * (g_clock g - z) <= L * (t - z)) by (apply mul_le_mono; [exact HL|lra]).
+  destruct (i_Gcert g I) as [A|[z' [A B]]].
+  - rewrite A in Hab. change (inject_Z 0) with 0 in Hab.
+    pose proof (i_origin g I) as Io. rewrite Hz in Io.
+    destruct (start (g_th g)) as [s|]; [|contradiction].
+    destruct Io as (O1 & O2 & _).
+    assert (L * 0 <= L * (g_clock g - z)) by (apply mul_le_mono; [exact HL|lra]).
+    pose proof (half_nonneg _ (i_r0 g I)). lra.
+  - rewrite Hz in A. inversion A; subst z'. lra.
+Qed.
+
+(* one stream: the bound of the property with the single block in flight *)
+Corollary single_stream_bound : forall th c tr g z t,
+  fresh_ok th -> grun (ginit th c) tr = Some g ->
+  Forall (fun e => actor_of_ev1 e = O) tr ->
+  g_t0 g = Some z -> g_clock g <= t ->
+  inject_Z (g_T g) <= L * (t - z) + half (g_r g)
+                     + inject_Z (if is_started (g_stat g O) then 0 else g_last g O).
+Proof.
+  intros th c tr g z t Hf Hr Hall Hz Ht.
+  pose proof (shared_bound th c tr g 1 z t Hf Hr) as H.
+  cbn [sum_last] in H. rewrite Z.add_0_l in H. apply H; try assumption.
+  eapply Forall_impl; [|exact Hall]. intros e He. cbn beta in He. lia.
+Qed.
+
 End One.
